@@ -271,9 +271,83 @@ fn pair_shrink_to_fit() {
     }
 }
 
-// clone / clone_from take a hashbrown map: three harnesses with a real one-entry map did not finish
-// symbolic execution within 15 minutes each (unwind 20 is needed for the FNV and SIMD group
-// loops), so these two functions have no bounded twin; they are decided by unit V-alloc only.
+// ------------------------------------------------------------------ clone / clone_from (C10)
+// clone / clone_from take a hashbrown map: harnesses with a real one-entry map did not finish
+// symbolic execution within 15 minutes each, so the twins below use allocators whose slots are
+// all inactive (the map is then never consulted and can stay empty): they check slot count,
+// generations and the free list, including a free list whose ring buffer has wrapped.
+use fnv::FnvBuildHasher;
+use hashbrown::HashMap;
+
+/// 3 slots, all released, after a churn that makes the VecDeque wrap: free = [2, 0, 1]
+fn build_wrapped(idref: archetype::IdentifierRef<R>) -> Allocator<R> {
+    let mut a = Allocator::<R>::new();
+    let i0 = a.allocate(Location::new(idref, 0));
+    let i1 = a.allocate(Location::new(idref, 1));
+    let i2 = a.allocate(Location::new(idref, 2));
+    unsafe {
+        a.free_unchecked(i0);
+        a.free_unchecked(i1);
+        a.free_unchecked(i2);
+    }
+    let j0 = a.allocate(Location::new(idref, 0));
+    let j1 = a.allocate(Location::new(idref, 1));
+    unsafe {
+        a.free_unchecked(j0);
+        a.free_unchecked(j1);
+    }
+    a
+}
+
+fn same_slots_and_free(c: &Allocator<R>, src: &Allocator<R>) -> bool {
+    let mut ok = c.slots.len() == src.slots.len() && c.free.len() == src.free.len();
+    let mut i = 0;
+    while ok && i < src.slots.len() {
+        ok = ok && c.slots[i].generation == src.slots[i].generation && c.slots[i].location.is_none() == src.slots[i].location.is_none();
+        i += 1;
+    }
+    i = 0;
+    while ok && i < src.free.len() {
+        ok = ok && c.free[i] == src.free[i];
+        i += 1;
+    }
+    ok
+}
+
+#[kani::proof]
+#[kani::unwind(8)]
+fn pair_clone_all_released() {
+    let idb = ident(1);
+    let idref = unsafe { idb.as_ref() };
+    let map: HashMap<archetype::IdentifierRef<R>, archetype::IdentifierRef<R>, FnvBuildHasher> = HashMap::with_hasher(FnvBuildHasher::default());
+    let src = build_wrapped(idref);
+    assert!(src.free.len() == 3 && src.free[0] == 2);
+    let c = unsafe { src.clone(&map) };
+    assert!(same_slots_and_free(&c, &src), "C10.remapped_copy: clone has the same slots, generations and free list (also when the free list's ring buffer has wrapped)");
+    assert!(wf(&c), "C13: the clone satisfies the representation invariant");
+}
+
+#[kani::proof]
+#[kani::unwind(8)]
+fn pair_clone_from_all_released() {
+    let idb = ident(1);
+    let idref = unsafe { idb.as_ref() };
+    let map: HashMap<archetype::IdentifierRef<R>, archetype::IdentifierRef<R>, FnvBuildHasher> = HashMap::with_hasher(FnvBuildHasher::default());
+    let src = build_wrapped(idref);
+    // destinations that already released slots of their own, of other generations
+    let mut k = 4;
+    while k < SHAPES {
+        let mut dst = build(5, idref);
+        if k == 4 {
+            dst = build_wrapped(idref);
+            dst.slots[0].generation = kani::any();
+        }
+        unsafe { dst.clone_from(&src, &map) };
+        assert!(same_slots_and_free(&dst, &src), "C10.remapped_copy: clone_from yields the source's slots, generations and free list whatever the destination held");
+        assert!(wf(&dst), "C13: the result satisfies the representation invariant");
+        k += 1;
+    }
+}
 
 // ------------------------------------------------------------------ equality (C16)
 /// exec specification of allocator equality: same slot table (generation, activity, archetype
